@@ -83,7 +83,7 @@ class GeneratorSpec(Spec):
         # wall-clock caps, generous because the machine is shared; the configurations are sized for <= ~20 s (quick) and
         # <= ~90 s (thorough) of CPU each and close well before the cap on an idle machine
         self.time_budget = 900 if tier == "quick" else 3000
-        self.max_states = 6_000_000
+        self.max_states = 2_000_000        # closure needs < 10^6 states; the cap only matters for broken DUTs whose stall cycles change state
         self.device = cfg["dut"] == "device"
         self.npk = len(cfg["fams"])
         self.tokens = list(cfg.get("token", []))
